@@ -229,12 +229,12 @@ func c01OverlappingFirstCalls() []bbObs {
 			out = append(out, bbObs{Ev: "bbprobe", Ctor: m.ctor, Name: "overlapping-first-calls", Err: fmt.Sprint(err), Worst: []int{}})
 			continue
 		}
-		res, lazy, e := overlapCalls(g, func() ([]float64, []float64) {
+		res, _, e := overlapCalls(g, func() ([]float64, []float64) {
 			b := s.BoundingBox()
 			return []float64{b.Min.X, b.Min.Y, b.Min.Z}, []float64{b.Max.X, b.Max.Y, b.Max.Z}
 		})
 		for k := 0; k < 2; k++ {
-			name := fmt.Sprintf("overlapping-first-calls:v%d:caller%d:box-computed-%s", vi3, k+1, map[bool]string{true: "on-first-use", false: "at-construction"}[lazy])
+			name := fmt.Sprintf("overlapping-first-calls:v%d:caller%d", vi3, k+1)
 			if e != "" {
 				out = append(out, bbObs{Ev: "bbprobe", Ctor: m.ctor, Name: name, Err: e, Worst: []int{}})
 				continue
@@ -268,12 +268,12 @@ func c01OverlappingFirstCalls() []bbObs {
 			out = append(out, bbObs{Ev: "bbprobe", Ctor: m.ctor, Name: "overlapping-first-calls", Err: fmt.Sprint(err), Worst: []int{}})
 			continue
 		}
-		res, lazy, e := overlapCalls(g, func() ([]float64, []float64) {
+		res, _, e := overlapCalls(g, func() ([]float64, []float64) {
 			b := s.BoundingBox()
 			return []float64{b.Min.X, b.Min.Y}, []float64{b.Max.X, b.Max.Y}
 		})
 		for k := 0; k < 2; k++ {
-			name := fmt.Sprintf("overlapping-first-calls:v%d:caller%d:box-computed-%s", vi2, k+1, map[bool]string{true: "on-first-use", false: "at-construction"}[lazy])
+			name := fmt.Sprintf("overlapping-first-calls:v%d:caller%d", vi2, k+1)
 			if e != "" {
 				out = append(out, bbObs{Ev: "bbprobe", Ctor: m.ctor, Name: name, Err: e, Worst: []int{}})
 				continue
